@@ -10,6 +10,10 @@
 //	(ii)  its result must admit the concrete result (mon.Admits: type,
 //	      nullness, numeric and length bounds, string prefix, every known part);
 //	(iii) the call on wholly known arguments must give a wholly known result.
+//
+// The same clauses are applied once more to calls that go through a reused
+// argument slice (history.go): the outcome of a call is a function of the
+// argument values, not of where the caller keeps them or of earlier calls.
 package c12
 
 import (
@@ -36,11 +40,14 @@ func (Driver) Info() core.Info {
 	return core.Info{
 		Title: "standard functions treat unknown arguments soundly",
 		Rule: "case = (stdlib function, wholly known argument list on which Call succeeds, weakened argument list): argument lists come from one in-domain generator per " +
-			"function (every exported ...Func variable of cty/function/stdlib plus MakeToFunc for 8 targets); each successful concrete list is paired with up to 6 weakenings " +
-			"(one whole argument unrefined / refined, several whole arguments, nested members at any depth, one enumerated single position, mixed) that use typed unknowns only, " +
+			"function (every exported ...Func variable of cty/function/stdlib plus MakeToFunc for 8 targets); each successful concrete list is paired with up to 7 weakenings " +
+			"(one whole argument unrefined / refined, several whole arguments, nested members at any depth, one enumerated single position, mixed, one collection argument with a length " +
+			"bound far from its length: powers of two up to 2^62, the neighbourhood of MaxInt, bounds whose product or sum with the other arguments' lengths passes the int range) that use typed unknowns only, " +
 			"unrefined or with refinements true of the replaced part (not-null, inclusive/exclusive numeric bounds incl. the equal neighbour, true string prefixes, tight and loose length bounds incl. " +
 			"ones that allow the empty collection); every weakened argument is re-checked with mon.Admits against the original before use. In addition a seed-independent catalogue " +
 			"(fixed argument lists per function) x EVERY single-position weakening x EVERY refinement kind of the menu is enumerated, and a hand-written corpus of boundary pairs. " +
+			"History steps: the lists of a case (concrete, weakened, a second concrete list of the same function) are called again through ONE reused argument slice (weakened then concrete, " +
+			"concrete then weakened, other known values in between) and each outcome is held against the outcome of the same list through a fresh slice. " +
 			"distinct = hash of (function, concrete arguments, weakened arguments); non-trivial = the concrete call succeeded and at least one position was replaced by an unknown value",
 		Assumptions: []string{
 			"mon.Admits is the weakest reading of 'admits' (infinite bounds = unset; sets by necessary conditions only; marks not compared)",
@@ -245,8 +252,10 @@ func errClass(err error) string {
 	return core.PanicClass(msg)
 }
 
-// pair executes one weakened call and applies clauses (i) and (ii).
-func pair(c *core.Ctx, idx int64, fd *fnDef, conc []cty.Value, cres cty.Value, abs []cty.Value, mode string) {
+// pair executes one weakened call and applies clauses (i) and (ii). valid is
+// false when the weakening was dropped (it does not admit the original, holds
+// an untyped unknown, or replaces nothing).
+func pair(c *core.Ctx, idx int64, fd *fnDef, conc []cty.Value, cres cty.Value, abs []cty.Value, mode string) (valid bool) {
 	if why := weakeningAdmits(conc, abs); why != "" {
 		if why == "nothing replaced" {
 			c.Count("weakening-dropped:nothing-replaced")
@@ -260,6 +269,7 @@ func pair(c *core.Ctx, idx int64, fd *fnDef, conc []cty.Value, cres cty.Value, a
 		}
 		return
 	}
+	valid = true
 	site := "stdlib." + fd.name
 	desc := func() string {
 		return fmt.Sprintf("%s(%s) weakened to %s(%s)", fd.name, fmtArgs(conc), fd.name, fmtArgs(abs))
@@ -316,6 +326,7 @@ func pair(c *core.Ctx, idx int64, fd *fnDef, conc []cty.Value, cres cty.Value, a
 		c.Sample(map[string]any{"function": fd.name, "concrete": fmtArgs(conc), "weakened": fmtArgs(abs),
 			"concrete_result": fmt.Sprintf("%#v", cres), "abstract_result": fmt.Sprintf("%#v", ares), "mode": mode})
 	}
+	return
 }
 
 // classSetproductEmpty is the input class of finding F-112a: the concrete
@@ -451,7 +462,7 @@ func countRefinementKinds(c *core.Ctx, abs []cty.Value) {
 	}
 }
 
-// weakenings derives up to six weakened argument lists from conc.
+// weakenings derives up to seven weakened argument lists from conc.
 func weakenings(r *core.Rand, conc []cty.Value) ([][]cty.Value, []string) {
 	var out [][]cty.Value
 	var modes []string
@@ -525,6 +536,10 @@ func weakenings(r *core.Rand, conc []cty.Value) ([][]cty.Value, []string) {
 		}
 		add(a, "mixed")
 	}
+	// 7. one collection argument with a length bound far from its length (loose.go)
+	if a := farLengthWeakening(r, conc); a != nil {
+		add(a, "far-length-bound")
+	}
 	return out, modes
 }
 
@@ -564,9 +579,13 @@ func (Driver) Run(c *core.Ctx) {
 			continue
 		}
 		ws, modes := weakenings(r, conc)
+		var valid [][]cty.Value
 		for k := range ws {
-			pair(c, i, fd, conc, cres, ws[k], modes[k])
+			if pair(c, i, fd, conc, cres, ws[k], modes[k]) {
+				valid = append(valid, ws[k])
+			}
 		}
+		histories(c, i, r, fd, conc, cres, valid)
 	}
 	runCorpus(c, 1_000_000_000)
 	runCatalogue(c, 2_000_000_000)
